@@ -199,6 +199,12 @@ func runFree(c *core.Case) {
 				for _, a := range ams {
 					if a.n == n {
 						a.removed = true
+						// a notifier that waits for the send loop of a removed Alertmanager must
+						// not wait for Send calls that the removal itself blocks
+						w.mu.Lock()
+						a.rec.latency = 0
+						w.cond.Broadcast()
+						w.mu.Unlock()
 					}
 				}
 				if !w.pushTsets(tsetsFor(members, nsets)) {
